@@ -453,10 +453,10 @@ func famC35Json(r *hx.Rng, o *hx.Out) {
 	for _, s := range c35jInvalid {
 		c35jEmitUtf8(o, "a"+s+"é", "invalid-embedded")
 	}
-	for i := 0; i < hx.N(15, 1000); i++ {
+	for i := 0; i < hx.N(15, 400); i++ {
 		c35jEmitUtf8(o, c35jStr(r, false), "mixed")
 	}
-	for i := 0; i < hx.N(15, 1000); i++ {
+	for i := 0; i < hx.N(15, 400); i++ {
 		c35jEmitUtf8(o, string(r.Bytes(1+r.Intn(6))), "random")
 	}
 	// every lead byte with every class of second byte
@@ -504,13 +504,13 @@ func famC35Json(r *hx.Rng, o *hx.Out) {
 		v[4] = "é" + s + " " + s + "z"
 		c35jEmitEnc(o, v, "invalid-utf8-embedded")
 	}
-	for i := 0; i < hx.N(15, 1000); i++ {
+	for i := 0; i < hx.N(15, 400); i++ {
 		c35jEmitEnc2(o, c35jBase(r), "plausible", i%3 == 0)
 	}
-	for i := 0; i < hx.N(30, 2500); i++ {
+	for i := 0; i < hx.N(30, 1000); i++ {
 		c35jEmitEnc2(o, c35jVal{c35jStr(r, true), c35jStr(r, true), c35jStr(r, true), c35jStr(r, true), c35jStr(r, true)}, "random-valid-utf8", i%3 == 0)
 	}
-	for i := 0; i < hx.N(30, 2500); i++ {
+	for i := 0; i < hx.N(30, 1000); i++ {
 		c35jEmitEnc2(o, c35jVal{c35jStr(r, false), c35jStr(r, false), c35jStr(r, false), c35jStr(r, false), c35jStr(r, false)}, "random-any-bytes", i%3 == 0)
 	}
 
@@ -531,7 +531,7 @@ func famC35Json(r *hx.Rng, o *hx.Out) {
 		}
 	}
 	// a valid transfer with something before / after the JSON value
-	for i := 0; i < hx.N(6, 300); i++ {
+	for i := 0; i < hx.N(6, 120); i++ {
 		bz := c35jBase(r).data().GetBytes()
 		for _, x := range []string{"x", "{}", ",", "]", "}", "\x00", " x", "null", "\n{}", " ", "\n", "\"\"", "0"} {
 			c35jEmitDec(o, append(append([]byte{}, bz...), x...), "valid+trailing")
@@ -541,7 +541,7 @@ func famC35Json(r *hx.Rng, o *hx.Out) {
 		}
 	}
 	// one byte replaced / inserted / deleted, quotes removed
-	for i := 0; i < hx.N(60, 4000); i++ {
+	for i := 0; i < hx.N(60, 1600); i++ {
 		v := c35jBase(r)
 		if r.Bool() {
 			v[4] = c35jStr(r, true)
@@ -581,15 +581,15 @@ func famC35Json(r *hx.Rng, o *hx.Out) {
 		c35jEmitDec(o, m, tag)
 	}
 	// random valid objects aimed at the struct, and random valid JSON values of any type
-	for i := 0; i < hx.N(70, 5000); i++ {
+	for i := 0; i < hx.N(70, 2000); i++ {
 		c35jEmitDec(o, []byte(c35jGenObject(r)), "gen-object")
 	}
-	for i := 0; i < hx.N(20, 1500); i++ {
+	for i := 0; i < hx.N(20, 600); i++ {
 		c35jEmitDec(o, []byte(c35jWS(r)+c35jGenValue(r, 3)+c35jWS(r)), "gen-value")
 	}
 	// token soup and random bytes
 	toks := []string{"{", "}", "[", "]", ":", ",", "\"denom\"", "\"memo\"", "\"x\"", "\"", "1", "-", "0.5", "e", "null", "true", "false", " ", "\n", c35jBS, c35jBS + "u00", "\xff", "nul"}
-	for i := 0; i < hx.N(40, 3000); i++ {
+	for i := 0; i < hx.N(40, 1200); i++ {
 		var b strings.Builder
 		n := 1 + r.Intn(8)
 		for j := 0; j < n; j++ {
@@ -597,7 +597,7 @@ func famC35Json(r *hx.Rng, o *hx.Out) {
 		}
 		c35jEmitDec(o, []byte(b.String()), "token-soup")
 	}
-	for i := 0; i < hx.N(20, 2000); i++ {
+	for i := 0; i < hx.N(20, 800); i++ {
 		c35jEmitDec(o, r.Bytes(r.Intn(24)), "random-bytes")
 	}
 	// deep nesting: top level and under an unknown key (the scanner's limit is 10000)
